@@ -19,7 +19,7 @@ import sys
 import threading
 import weakref
 
-from traits.api import (HasTraits, Int, Instance, List, Dict, Set, Str, Any,
+from traits.api import (HasTraits, Int, Float, Instance, List, Dict, Set, Str, Any,
                         Undefined, Uninitialized)
 from traits.api import push_exception_handler as legacy_push
 from traits.api import pop_exception_handler as legacy_pop
@@ -55,7 +55,14 @@ META = {
              "queueing handler A / handler B, is installed, replaced or removed between registration "
              "and unregistration; 'same' and 'ui' registrations of one handler/expression are mixed in "
              "every state; an enumerated stratum covers all 9 (state at registration, state at "
-             "unregistration) pairs); (5) a 4-thread add/remove stress.  distinct_nontrivial counts distinct "
+             "unregistration) pairs); (1c) 're-definition' histories: run-time traits (add_trait) on "
+             "targets and nested objects, observed by name / optional name / +metadata / * / nested "
+             "expressions, and between registration and unregistration one of 8 patterns: add_trait "
+             "again for the same run-time name (other type; same or flipped metadata), add_trait over "
+             "a class trait (same or flipped metadata), remove_trait, remove_trait + add_trait, "
+             "remove_trait of a class trait, add_trait of a new name (trait_added); operations that "
+             "meet the structural condition of one of three open findings put the rest of their "
+             "history under that finding's mechanism key; (5) a 4-thread add/remove stress.  distinct_nontrivial counts distinct "
              "(stratum, op, expression shape, handler kind, dispatch, count class, outcome class, "
              "failure-position class) signatures of steps in which a registration changed, a call was "
              "observed, an exception was raised or an object died."),
@@ -70,7 +77,10 @@ META = {
                   "multiplicity_changing_events_while_registered": 150, "stale_owner_cycles": 600,
                   "stale_owner_address_reused": 150, "ui_state_cases": 150,
                   "ui_handler_switches_while_ui_registered": 300, "ui_no_handler_reports": 700,
-                  "histories_starting_without_ui_handler": 250},
+                  "histories_starting_without_ui_handler": 250, "redefinition_histories": 180,
+                  "redefinitions_while_registered": 500, "redefinitions/readd": 60,
+                  "redefinitions/over-class": 60, "redefinitions/remove+add": 60,
+                  "redefinitions/add-new": 150},
         "thorough": {"evaluations": 5000000, "probe_checks": 5000000, "adds_ok": 80000,
                      "removes_ok": 80000, "failed_adds_checked": 20000,
                      "failed_adds_held_first_path": 10000, "failed_removes_checked": 40000,
@@ -81,7 +91,10 @@ META = {
                      "duplicate_histories": 6000, "multiplicity_changing_events_while_registered": 4000,
                      "stale_owner_cycles": 12000, "stale_owner_address_reused": 3000,
                      "ui_state_cases": 150, "ui_handler_switches_while_ui_registered": 10000,
-                     "ui_no_handler_reports": 25000, "histories_starting_without_ui_handler": 8000},
+                     "ui_no_handler_reports": 25000, "histories_starting_without_ui_handler": 8000,
+                     "redefinition_histories": 5000, "redefinitions_while_registered": 15000,
+                     "redefinitions/readd": 2000, "redefinitions/over-class": 2000,
+                     "redefinitions/remove+add": 2000, "redefinitions/add-new": 5000},
     },
     "exhaustive_parts": ("failure position: every node index of the walk for trees of depth 1..4 x "
                          "fan-out 1..3 (quick: depth 4 only with fan-out <= 2); multi-graph "
@@ -99,6 +112,9 @@ META = {
         "RuntimeError, which is reported once per listening 'ui' registration through the observe "
         "exception channel and the handler is not run; registration identity never depends on the "
         "UI handler",
+        "re-definition: add_trait / remove_trait fire no change event for the value; the model expects "
+        "one trait_added event for a new name (also after remove_trait) and none otherwise; a "
+        "+metadata filter matches the traits that carry the metadata NOW",
         "thread stress: final-state oracle only (census, absence of exceptions); preemptive "
         "interleavings are sampled by the OS scheduler, reach is limited",
     ],
@@ -163,6 +179,51 @@ HANDLER_KINDS = ("function", "method", "hastraits-method")
 
 def sn_of(o):
     return o.__dict__["sn"]
+
+
+# Traits (re)defined at run time with add_trait: serial -> {name: spec}; spec = {"kind": int|float|
+# any|inst|instnode, "tag": bool, "link": bool}.  An entry whose name is a class trait overrides the
+# class definition.  Reset by every Session (sessions never overlap).
+DYN = {}
+DYN_UNIVERSE = ("dyn0", "dyn1", "dnode", "late")
+
+
+def has_name(obj, name):
+    return name in NAMES[type(obj)] or name in DYN.get(sn_of(obj), ())
+
+
+def names_of(obj):
+    d = DYN.get(sn_of(obj))
+    base = NAMES[type(obj)]
+    if not d:
+        return base
+    return tuple(base) + tuple(n for n in d if n not in base)
+
+
+def tag_names(obj, tag):
+    d = DYN.get(sn_of(obj)) or {}
+    out = [n for n in TAGS[type(obj)].get(tag, ()) if n not in d]
+    out += [n for n, spec in d.items() if spec.get(tag)]
+    return out
+
+
+def leaf_probes(obj):
+    d = DYN.get(sn_of(obj))
+    base = LEAF_PROBES[type(obj)]
+    if not d:
+        return base
+    return tuple(base) + tuple(n for n, spec in d.items()
+                               if n not in base and spec["kind"] in ("int", "float", "any"))
+
+
+def bump(o, name):
+    """Change a numeric leaf trait by one, in the type its current definition wants."""
+    spec = (DYN.get(sn_of(o)) or {}).get(name)
+    v = getattr(o, name)
+    if spec is not None and spec["kind"] == "float":
+        setattr(o, name, float(v) + 1.0)
+    else:
+        setattr(o, name, int(v) + 1)
 
 
 # ---------------------------------------------------------------------------
@@ -357,7 +418,7 @@ def walk(r, obj, origin, out):
     nexts = []
     if kind == "t":
         is_ht = isinstance(obj, HasTraits)
-        if not is_ht or arg not in NAMES[type(obj)]:
+        if not is_ht or not has_name(obj, arg):
             if not optional:
                 return (False, 0, False)
             return (True, 1 if is_ht else 0, False)      # trait_added maintainer only
@@ -379,7 +440,7 @@ def walk(r, obj, origin, out):
     else:
         if not isinstance(obj, HasTraits):
             return (False, 0, False)
-        names = NAMES[type(obj)] if kind == "A" else TAGS[type(obj)].get(arg, ())
+        names = names_of(obj) if kind == "A" else tag_names(obj, arg)
         a0 = 1
         for name in names:
             if notify:
@@ -422,7 +483,7 @@ def census(objs):
         d = o.__dict__
         sn = d["sn"]
         cls = type(o)
-        for n in NAMES[cls] + CENSUS_EXTRA[cls]:
+        for n in NAMES[cls] + CENSUS_EXTRA[cls] + DYN_UNIVERSE:
             tr = o._trait(n, 0)
             c[(sn, n)] = -1 if tr is None else len(tr._notifiers(False) or ())
         c[(sn, "<object>")] = len(o._notifiers(False) or ())
@@ -444,7 +505,8 @@ def describe_objs(objs, cap=45):
             out["Leaf#%d" % sn_of(o)] = "no value / link traits"
             continue
         e = {}
-        for n in ("child", "other_child"):
+        dyn_links = [n for n, sp in (DYN.get(sn_of(o)) or {}).items() if sp["kind"] in ("inst", "instnode")]
+        for n in ["child", "other_child"] + [n for n in dyn_links if n not in ("child", "other_child")]:
             if d.get(n) is not None:
                 e[n] = ref(d[n])
         for n in ("children", "cset", "bag"):
@@ -603,6 +665,8 @@ class Session:
         self.owner = Owner(rec, 1)
         self.howner = HOwner(rec=rec, idx=2)
         self.base = None
+        self.key_prefix = None                   # set by strata of patterns that are open findings
+        DYN.clear()
 
     # -- plumbing ---------------------------------------------------------
     def handler(self, hi):
@@ -635,10 +699,17 @@ class Session:
         w.update(self.extra)
         w.update(kw)
         w["objects_now"] = describe_objs(self.objs)
+        if DYN:
+            w["run_time_traits"] = {"#%d" % k: {n: "%s%s%s" % (sp["kind"], " tag" if sp.get("tag") else "",
+                                                               " link" if sp.get("link") else "")
+                                               for n, sp in v.items()} for k, v in DYN.items() if v}
         w["targets"] = ["Node#%d" % sn_of(r) for r in self.roots if r is not None]
         return w
 
     def fail(self, key, msg, **kw):
+        if self.key_prefix:                      # one mechanism key per open pattern; symptom in the text
+            msg = "[symptom %s] %s" % (key, msg)
+            key = self.key_prefix
         self.ctx.violation(key, "%s [%s]" % (msg, self.stratum), self.witness(**kw))
         raise Stop(key)
 
@@ -798,7 +869,8 @@ class Session:
             exp[hi][off + 1] += m
         return exp
 
-    def fire(self, kind, observables, action, what, via_thread=False, thread_rng=None):
+    def fire(self, kind, observables, action, what, via_thread=False, thread_rng=None,
+             tolerate_late=False):
         ctx = self.ctx
         rec = self.rec
         exp = self.expected(observables)
@@ -833,6 +905,15 @@ class Session:
         ctx.ev()
         ctx.count("probe_checks")
         if raised is not None:
+            if tolerate_late:
+                # documented: a non-optional observer can only fail later, inside the change that
+                # brings an object without the trait / of the wrong kind under a registered graph
+                self.invalidate()
+                if any(n > 0 and not self.analysis(kri, self.graphs[gk]).ok
+                       for (kri, khi, gk, kd), n in self.counts.items()):
+                    ctx.count("histories_ended_by_late_failure")
+                    del CH.captured[:]
+                    raise Stop("late")
             self.trace.append((kind, what))
             self.fail("%s/raised/%s" % (kind, type(raised).__name__),
                       "%s raised %r" % (what, raised))
@@ -901,10 +982,10 @@ class Session:
 
     def probe_all(self, rng=None, objs=None):
         for o in (self.objs if objs is None else objs):
-            for name in LEAF_PROBES[type(o)]:
+            for name in leaf_probes(o):
 
                 def action(o=o, name=name):
-                    setattr(o, name, getattr(o, name) + 1)
+                    bump(o, name)
                 self.fire("leaf", [("t", sn_of(o), name)], action,
                           "#%d.%s += 1" % (sn_of(o), name), thread_rng=rng)
 
@@ -1161,7 +1242,7 @@ def do_mutation(S, rng, layers, rank, objs, dup=False):
     desc, obs, action = m[:3]
     multi = len(m) > 3 and m[3]
     S.trace.append(("mutate", desc))
-    S.fire("mutation", obs, action, desc, thread_rng=rng)
+    S.fire("mutation", obs, action, desc, thread_rng=rng, tolerate_late=True)
     m = action = None                         # the closures hold pool objects
     S.invalidate()
     ctx.count("mutations")
@@ -1311,6 +1392,311 @@ def main_history(ctx, h, OK, BAD, dup=False):
         S.probe_all(objs=S.roots)
     if h < 2 * ctx.nshards:
         ctx.sample({"stratum": "main", "history": S.trace[:8]})
+
+
+# ---------------------------------------------------------------------------
+# re-definition of traits at run time (add_trait / remove_trait) between registration and
+# unregistration
+# ---------------------------------------------------------------------------
+LEAF_KINDS = ("int", "float", "any")
+LINK_KINDS = ("inst", "instnode")
+CLASS_SPECS = {
+    "value": {"kind": "int"}, "other": {"kind": "int"}, "tagged": {"kind": "int", "tag": True},
+    "child": {"kind": "inst", "link": True}, "other_child": {"kind": "inst", "link": True},
+}
+REDEF_PATTERNS = ("readd", "over-class", "remove+add", "add-new", "remove", "readd-membership",
+                  "over-class-membership", "remove-class-clone")
+# Three things the unchanged tree is known to get wrong around re-definition; an operation that meets
+# one of these structural conditions puts the rest of its history under that mechanism key
+KEY_NESTED = "redefinition/remove_trait-leaves-observers-on-old-value"
+KEY_CLONE = "redefinition/remove_trait-of-observed-class-trait-drops-notifiers"
+KEY_FILTER = "redefinition/metadata-change-not-seen-by-filter-observers"
+
+
+def graph_nodes(real):
+    yield real
+    for k in real[4]:
+        for n in graph_nodes(k):
+            yield n
+
+
+def open_mechanism(S, pattern, o, name, old_spec, flipped):
+    """Mechanism key when this operation meets the structural condition of an open finding."""
+    nodes = [n for (ri, hi, gk, d), c in S.counts.items() if c > 0 for n in graph_nodes(S.graphs[gk].real)]
+    if not nodes:
+        return None
+    if flipped and any(n[0] == "M" and n[1] == flipped for n in nodes):
+        return KEY_FILTER
+    if pattern in ("remove", "remove+add", "remove-class-clone"):
+        flags = [f for f in ("tag", "link") if old_spec.get(f)]
+        if pattern == "remove-class-clone" and any(
+                (n[0] == "t" and n[1] == name) or n[0] == "A" or (n[0] == "M" and n[1] in flags)
+                for n in nodes):
+            return KEY_CLONE
+        v = o.__dict__.get(name)
+        if isinstance(v, HasTraits) and any(
+                n[4] and ((n[0] == "t" and n[1] == name) or n[0] == "A" or (n[0] == "M" and n[1] in flags))
+                for n in nodes):
+            return KEY_NESTED
+    return None
+
+
+def make_trait(spec):
+    md = {}
+    if spec.get("tag"):
+        md["tag"] = True
+    if spec.get("link"):
+        md["link"] = True
+    k = spec["kind"]
+    if k == "int":
+        return Int(**md)
+    if k == "float":
+        return Float(**md)
+    if k == "any":
+        return Any(0, **md)
+    if k == "inst":
+        return Instance(HasTraits, **md)
+    return Instance(Node, **md)
+
+
+def spec_text(spec):
+    return "%s(%s)" % ({"int": "Int", "float": "Float", "any": "Any", "inst": "Instance(HasTraits",
+                        "instnode": "Instance(Node"}[spec["kind"]].rstrip("("),
+                       ", ".join(k + "=True" for k in ("tag", "link") if spec.get(k)))
+
+
+def retyped(spec, rng, flip=False):
+    new = dict(spec)
+    kinds = LEAF_KINDS if spec["kind"] in LEAF_KINDS else LINK_KINDS
+    new["kind"] = rng.choice(kinds)
+    if flip:
+        k = "tag" if spec["kind"] in LEAF_KINDS else "link"
+        new[k] = not spec.get(k)
+    return new
+
+
+def redefinition(S, rng, cands, layers, rank, pattern):
+    """One run-time (re)definition.  'skip' / 'ok' / 'late'."""
+    ctx = S.ctx
+    o = rng.choice(cands)
+    sn = sn_of(o)
+    d = DYN.setdefault(sn, {})
+    cls_names = NAMES[type(o)]
+    dyn_present = sorted(n for n in d if n not in cls_names)
+    obs = []
+    base_after = {}
+
+    if pattern == "set-link":
+        links = [n for n in dyn_present if d[n]["kind"] in LINK_KINDS]
+        if not links:
+            return "skip"
+        name = rng.choice(links)
+        cur = o.__dict__.get(name)
+        nxt = [x for x in layers[rank[sn] + 1] if x is not cur]
+        new = None if (cur is not None and rng.random() < 0.2) else rng.choice(nxt)
+        desc = "#%d.%s = %s" % (sn, name, "None" if new is None else "#%d" % sn_of(new))
+        obs = [("t", sn, name)]
+
+        def action():
+            setattr(o, name, new)
+
+        def commit():
+            pass
+    elif pattern == "add-new":
+        free = [n for n in DYN_UNIVERSE if n not in d]
+        if not free:
+            return "skip"
+        name = rng.choice(free)
+        spec = ({"kind": rng.choice(LINK_KINDS), "link": True} if name == "dnode"
+                else {"kind": rng.choice(LEAF_KINDS), "tag": rng.random() < 0.5})
+        desc = "#%d.add_trait(%r, %s)  (new name)" % (sn, name, spec_text(spec))
+        obs = [("t", sn, "trait_added")]
+        base_after[(sn, name)] = 0
+
+        def action():
+            o.add_trait(name, make_trait(spec))
+
+        def commit():
+            d[name] = spec
+    elif pattern in ("readd", "readd-membership", "over-class", "over-class-membership"):
+        if pattern.startswith("readd"):
+            if not dyn_present:
+                return "skip"
+            name = rng.choice(dyn_present)
+            old = d[name]
+        else:
+            name = rng.choice(sorted(CLASS_SPECS))
+            old = d.get(name, CLASS_SPECS[name])
+        spec = retyped(old, rng, flip=pattern.endswith("membership"))
+        desc = "#%d.add_trait(%r, %s)  (was %s%s)" % (sn, name, spec_text(spec), spec_text(old),
+                                                     ", a class trait" if name in cls_names else "")
+
+        def action():
+            o.add_trait(name, make_trait(spec))
+
+        def commit():
+            d[name] = spec
+    elif pattern == "remove+add":
+        if not dyn_present:
+            return "skip"
+        name = rng.choice(dyn_present)
+        spec = retyped(d[name], rng)
+        desc = "#%d.remove_trait(%r); #%d.add_trait(%r, %s)" % (sn, name, sn, name, spec_text(spec))
+        obs = [("t", sn, "trait_added")]
+
+        def action():
+            o.remove_trait(name)
+            o.add_trait(name, make_trait(spec))
+
+        def commit():
+            d[name] = spec
+    elif pattern == "remove":
+        if not dyn_present:
+            return "skip"
+        name = rng.choice(dyn_present)
+        desc = "#%d.remove_trait(%r)" % (sn, name)
+        base_after[(sn, name)] = -1
+
+        def action():
+            o.remove_trait(name)
+
+        def commit():
+            del d[name]
+    elif pattern == "remove-class-clone":
+        name = rng.choice(sorted(CLASS_SPECS))
+        desc = "#%d.remove_trait(%r)  (a class trait)" % (sn, name)
+
+        def action():
+            o.remove_trait(name)
+
+        def commit():
+            d.pop(name, None)
+    else:
+        raise AssertionError(pattern)
+    S.trace.append(("redefine", desc))
+    if pattern not in ("set-link", "add-new") and S.key_prefix is None:
+        old_spec = d.get(name) or CLASS_SPECS.get(name) or {}
+        flipped = None
+        if pattern.endswith("membership"):
+            flipped = "tag" if old_spec["kind"] in LEAF_KINDS else "link"
+        key = open_mechanism(S, pattern, o, name, old_spec, flipped)
+        if key:
+            S.key_prefix = key
+            S.stratum = "redefinition-open"
+            ctx.count("redefinition_open_pattern_histories")
+    S.fire("redefinition", obs, action, desc, tolerate_late=True)
+    commit()
+    action = commit = None
+    S.invalidate()
+    if S.base is not None:
+        S.base.update(base_after)
+    ctx.count("redefinitions")
+    ctx.count("redefinitions/" + pattern)
+    if S.total():
+        ctx.count("redefinitions_while_registered")
+    ctx.sig("redefinition", pattern, rank[sn], min(S.total(), 3))
+    late = [gk for (kri, khi, gk, kd), n in S.counts.items() if n > 0
+            and not S.analysis(kri, S.graphs[gk]).ok]
+    if late:
+        ctx.count("histories_ended_by_late_failure")
+        return "late"
+    return "ok"
+
+
+def redef_entries():
+    E = Entry
+    d0 = t("dyn0")
+    d0o = t("dyn0", optional=True)
+    return [
+        E("dyn0", [d0]), E("dyn0?", [d0o]), E("late?", [t("late", optional=True)]),
+        E("dyn1?", [t("dyn1", optional=True)]),
+        E("dnode.value", [t("dnode", V)]), E("dnode:value", [t("dnode", V, notify=False)]),
+        E("dnode.dyn0?", [t("dnode", d0o)]), E("dnode?.value", [t("dnode", V, optional=True)]),
+        E("+tag", [meta("tag")]), E("+link.value", [meta("link", V)]), E("*", [anyt()]),
+        E("child.dyn0", [t("child", d0)]), E("child.dyn0?", [t("child", d0o)]),
+        E("child.+tag", [t("child", meta("tag"))]), E("child.dnode.value", [t("child", t("dnode", V))]),
+        E("children.items.dyn0?", [t("children", items(d0o))]), E("child.*", [t("child", anyt())]),
+        E("child.late?", [t("child", t("late", optional=True))]),
+        E("value", [t("value")]), E("tagged", [t("tagged")]), E("child.value", [t("child", V)]),
+        E("child:value", [t("child", V, notify=False)]), E("dyn0, value", [d0, t("value")]),
+        E("other_child.other", [t("other_child", t("other"))]),
+    ]
+
+
+def redef_history(ctx, h, pattern, entries):
+    rng = ctx.rng("R", h, pattern)
+    objs, layers, rank = build_pool(rng)
+    S = Session(ctx, "redefinition", objs, layers[0], extra={"pattern": pattern})
+    del objs
+    cands = layers[0] + layers[1]
+    for o in cands:                           # run-time traits that exist before the first registration
+        sn = sn_of(o)
+        d = DYN.setdefault(sn, {})
+        d["dyn0"] = {"kind": rng.choice(LEAF_KINDS), "tag": rng.random() < 0.5}
+        o.add_trait("dyn0", make_trait(d["dyn0"]))
+        o.dyn0 = 10 * sn + 3
+        d["dnode"] = {"kind": rng.choice(LINK_KINDS), "link": True}
+        o.add_trait("dnode", make_trait(d["dnode"]))
+        if rng.random() < 0.7:
+            o.dnode = rng.choice(layers[rank[sn] + 1])
+    S.set_base()
+    mine = rng.sample(entries, 4)
+    for step in range(14):
+        r = rng.random()
+        ri = 0 if rng.random() < 0.7 else 1
+        hi = rng.randrange(3)
+        disp = "same" if rng.random() < 0.7 else "ui"
+        if r < 0.30:
+            live = [k for k, n in S.counts.items() if n > 0]
+            e = rng.choice(mine)
+            if live and rng.random() < 0.4:
+                kri, khi, gk, kd = rng.choice(live)
+                cs = [c for c in mine if any(g.key == gk for g in c.graphs)]
+                if cs:
+                    ri, hi, disp, e = kri, khi, kd, rng.choice(cs)
+            if not all(S.analysis(ri, g).ok for g in e.graphs):
+                continue                      # failing registrations are other strata's business
+            S.add(ri, hi, e, disp)
+        elif r < 0.50:
+            live = [k for k, n in S.counts.items() if n > 0]
+            if live and rng.random() < 0.8:
+                ri, hi, gk, disp = rng.choice(live)
+                cs = [c for c in mine if any(g.key == gk for g in c.graphs)]
+                e = rng.choice(cs) if cs else Entry("single", [S.graphs[gk]], form="expr")
+            else:
+                e = rng.choice(mine)
+            need = collections.Counter(g.key for g in e.graphs)
+            have_all = all(S.counts[(ri, hi, k, disp)] >= n for k, n in need.items())
+            have_any = any(S.counts[(ri, hi, k, disp)] >= 1 for k in need)
+            if (have_any and not have_all) or not all(S.analysis(ri, g).ok for g in e.graphs):
+                continue
+            S.remove(ri, hi, e, disp)
+        elif r < 0.86:
+            pat = pattern if rng.random() < 0.7 else rng.choice(["set-link", "add-new"])
+            res = redefinition(S, rng, cands, layers, rank, pat)
+            if res == "skip":
+                continue
+            if res == "late":
+                return
+        else:
+            res = do_mutation(S, rng, layers, rank, S.objs)
+            if res == "skip":
+                continue
+            if res == "late":
+                return
+        S.probe_all(rng)
+        if S.total() == 0:
+            S.zero_check("step %d" % step)
+    S.trace.append(("unwind",))
+    last = [k for k, n in S.counts.items() if n > 0]
+    S.unwind(rng)
+    S.probe_all()
+    if last:
+        ri, hi, gk, disp = rng.choice(last)
+        S.remove(ri, hi, Entry("once-more", [S.graphs[gk]], form="expr"), disp)
+        S.probe_all(objs=S.roots)
+    if h < 2 * ctx.nshards and pattern == "readd":
+        ctx.sample({"stratum": "redefinition", "pattern": pattern, "history": S.trace[:8]})
 
 
 # ---------------------------------------------------------------------------
@@ -2214,6 +2600,21 @@ def _run(ctx):
         try:
             guarded(ctx, main_history, h, OK, BAD, True, gc_hard=(h % 16 == 7))
             ctx.count("duplicate_histories")
+        finally:
+            ctx.end()
+    # ---- (1c) run-time re-definition of traits between registration and unregistration ----
+    entries_r = redef_entries()
+    nr = ctx.scale(70, 2000)
+    pats = sorted(REDEF_PATTERNS)
+    for h in range(nr * len(pats)):
+        if not ctx.mine(h):
+            continue
+        pattern = pats[h % len(pats)]
+        if not ctx.begin("R:%s:%d" % (pattern, h)):
+            continue
+        try:
+            guarded(ctx, redef_history, h, pattern, entries_r, gc_hard=(h % 20 == 9))
+            ctx.count("redefinition_histories")
         finally:
             ctx.end()
     # ---- (2) failure positions ------------------------------------------------
